@@ -445,6 +445,53 @@ let check_kelim ~id gen sb oc sa (log : Sexp.t list) sa2 (pts : Sexp.t list) : u
     end
 (* x-kelim end ------------------------------------------------------------------------------------------------- *)
 
+(* x-c11k begin ------------------------------------------------------------------------------------------------
+   fault injection on infeasible_elimination for K = 4 (case kind kfault).  Deciding (the existing C11 comparisons): no
+   panic, no non-finite number stored, the dump is a well-formed AffTree<4>, the faulted result is equivalent to the
+   tree before for all inputs modulo certified-thin cells (C11_kelim_function_unchanged).  Mirror: Pwl/KElim.v's kelim
+   replayed with the logged (faulted) LP / mirror answers -- the run of kelim (faulty o hit bad) -- compared exactly
+   with the dump (counters kfault_mirror_...); C11_kfault_elim_removes_nothing: when every call was faulted and the
+   tree before holds no Infeasible mark, no node may disappear. *)
+let check_kfault ~id op sb (plan : Sexp.t list) sff sres (log : Sexp.t list) : unit =
+  bump "kfault"; bump ("kfault_" ^ op);
+  log_stats log;
+  List.iter (function List [_; Atom k] -> bump ("fault_kind_" ^ k) | _ -> ()) plan;
+  let all_faulted = (match plan with [List [Atom "all"; _]] -> true | _ -> false) in
+  if List.length plan > 1 || all_faulted then bump "multi_fault";
+  let nfaulted = List.length (List.filter (function List (Atom "lp" :: _ :: _ :: _ :: Atom f :: _) -> f <> "-" | _ -> false) log) in
+  if nfaulted > 0 then bump "nontrivial";
+  match sres with
+  | Atom "panic" -> result id "VIOL" "fault-panic" (Printf.sprintf "%s (K = 4) panicked under fault plan %s" op (Sexp.to_string (List plan)))
+  | _ when (try ignore (itree_of sres); false with Nonfinite -> true) ->
+    result id "VIOL" "fault-cache" (Printf.sprintf "a non-finite number is stored in the tree after %s (K = 4) under fault plan %s" op (Sexp.to_string (List plan)))
+  | _ ->
+    let res = itree_of sres and before = itree_of sb and ff = itree_of sff in
+    let n = res.in_dim in
+    (match ptree_of res, ptree_of before with
+     | None, _ -> result id "VIOL" "fault-wellformed" "result arena is not a tree"
+     | _, None -> result id "ERR" "abs" "operand arena is not a tree"
+     | Some pr, Some pb ->
+       let m = match first_out pr with Some m -> m | None -> 0 in
+       let childless_dec = List.exists (fun nd -> (not nd.leaf) && List.for_all (fun c -> c = None) nd.children) res.nodes in
+       let leaf_with_children = List.exists (fun nd -> nd.leaf && List.exists (fun c -> c <> None) nd.children) res.nodes in
+       let four = List.for_all (fun nd -> List.length nd.children = 4) res.nodes in
+       let ok0 =
+         if wfb (nat_of_int n) pr && outsb (nat_of_int m) pr && four && not childless_dec && not leaf_with_children then true
+         else (result id "VIOL" "fault-wellformed"
+                 (Printf.sprintf "ill-formed AffTree<4>: shapes=%b outdims=%b four-slots=%b childless-decision=%b leaf-with-children=%b"
+                    (wfb (nat_of_int n) pr) (outsb (nat_of_int m) pr) four childless_dec leaf_with_children); false) in
+       (try replay_kelim ~id ~pre:"kfault" before res log with Nonfinite -> bump "kfault_mirror_nonfinite");
+       let ok1 = equiv_mod_thin ~id ~tag:"fault-preserves" n pr pb in
+       if List.length res.nodes > List.length ff.nodes then bump "fault_less_pruning_observed";
+       (* every call faulted, no cached Infeasible mark before: nothing is removed (C11_kfault_elim_removes_nothing) *)
+       if all_faulted && not (List.exists (fun nd -> nd.nstate = Infeas) before.nodes) then begin
+         if List.length res.nodes = List.length before.nodes then bump "kfault_all_faulted_nothing_removed"
+         else (bump "kfault_all_faulted_mismatch";
+               result id "MIRROR" "kfault-removes-nothing" "every LP call was faulted, yet a node disappeared (C11_kfault_elim_removes_nothing)")
+       end;
+       if ok0 && ok1 then result id "OK" "kfault" "")
+(* x-c11k end -------------------------------------------------------------------------------------------------- *)
+
 let check (case : Sexp.t) : unit =
   match case with
   | List [Atom "case"; Atom id; Atom "elim"; Atom gen; sb; Atom oc; sa; counter; List (Atom "log" :: log); sa2; counter2; List (Atom "pts" :: pts)] ->
@@ -537,6 +584,9 @@ let check (case : Sexp.t) : unit =
   (* x-kprune: pruned composition of AffTree<4> operands *)
   | List [Atom "case"; Atom id; Atom "kcprune"; sf; sg; s0; s1; List (Atom "log" :: log); List (Atom "pts" :: pts)] ->
     check_kcprune ~id sf sg s0 s1 log pts
+  (* x-c11k: fault injection on the elimination of an AffTree<4> *)
+  | List [Atom "case"; Atom id; Atom "kfault"; Atom op; sb; List (Atom "plan" :: plan); sff; sres; List (Atom "log" :: log)] ->
+    check_kfault ~id op sb plan sff sres log
   | List [Atom "case"; Atom id; Atom "fault"; Atom op; sb; List (Atom "plan" :: plan); sref; sff; sres; List (Atom "log" :: log)] ->
     bump ("fault_" ^ op);
     log_stats log;
